@@ -374,6 +374,45 @@ func (x *Exec) ifStmt(s *ast.IfStmt, st *State, cs []*ctl) []*State {
 		}
 		st = r[0]
 	}
+	if x.c != nil && x.c.Opts["splitor"] != "" {
+		// `opt splitor`: if a || b {S} else {T} runs as if a {S} else if b {S}
+		// else {T} (Go's short-circuit order), one path per disjunct
+		var ds []ast.Expr
+		var flat func(e ast.Expr)
+		flat = func(e ast.Expr) {
+			if b, ok := unparen(e).(*ast.BinaryExpr); ok && b.Op == token.LOR {
+				flat(b.X)
+				flat(b.Y)
+				return
+			}
+			ds = append(ds, e)
+		}
+		flat(s.Cond)
+		if len(ds) > 1 {
+			var out []*State
+			cur := st
+			for _, d := range ds {
+				c := x.cond(d, cur)
+				if cur.dead() {
+					return out
+				}
+				if !c.IsFalse() {
+					sa := cur.clone()
+					sa.add(c)
+					out = append(out, x.stmt(s.Body, sa, cs)...)
+				}
+				if c.IsTrue() {
+					return out
+				}
+				cur = cur.clone()
+				cur.add(Not(c))
+			}
+			if s.Else != nil {
+				return append(out, x.stmt(s.Else, cur, cs)...)
+			}
+			return append(out, cur)
+		}
+	}
 	c := x.cond(s.Cond, st)
 	if st.dead() {
 		return nil
